@@ -103,6 +103,7 @@ func checkC09(c *an.Ctx) {
 	c.OK("C09.0", "runner roles", r.run.Pos(), "sites: Run, CompileTask, buildTask, runStage, Execute")
 	processEnvEntry(c, "C09.1")
 	stableCombinators(c, "C09.1")
+	wholeValues(c, "C09.1")
 	executorScope(c, "C09.6")
 
 	// (a) Run: env handed to CompileTask
@@ -1406,4 +1407,56 @@ func executorBaseField(p *an.Prog) string {
 	}
 	executorBaseFieldCache[p] = found
 	return found
+}
+
+// wholeValues: on the way into a command's environment an entry NAME=value is taken apart at its first '=' only.
+// An unbounded strings.Split(entry, "=") whose second piece is used as the value cuts every value that itself
+// contains '=' (an argument like --opt=1 in $ARGS, a URL with a query, a base64 string).
+func wholeValues(c *an.Ctx, rule string) {
+	p := c.P
+	var roots []*ssa.Function
+	for _, fn := range p.Funcs {
+		if inPkgs("pkg/executor")(fn) && fn.Parent() == nil && (fn.Name() == "Execute" || isExecutorCtor(fn)) {
+			roots = append(roots, fn)
+		}
+	}
+	if f := p.Func("pkg/utils", "", "ReadEnvFile"); f != nil {
+		roots = append(roots, f)
+	}
+	if len(roots) == 0 {
+		c.Und(rule, "executor:environment path", token.NoPos, "Execute not found")
+		return
+	}
+	reach := p.Reach(roots, func(e an.CallEdge) bool { return an.InModule(e.Callee) })
+	bad := false
+	n := 0
+	for f := range reach {
+		an.EachInstr(f, func(in ssa.Instruction) {
+			call, ok := in.(*ssa.Call)
+			if !ok || an.ShortCallee(&call.Call) != "strings.Split" {
+				return
+			}
+			sep, isS := an.ConstString(call.Call.Args[1])
+			if !isS || sep != "=" {
+				return
+			}
+			n++
+			if call.Referrers() == nil {
+				return
+			}
+			for _, ref := range *call.Referrers() {
+				ia, ok := ref.(*ssa.IndexAddr)
+				if !ok {
+					continue
+				}
+				if k, isC := an.ConstInt(ia.Index); isC && k >= 1 {
+					bad = true
+					c.Bad(rule, an.Short(f)+":Split(=)", call.Pos(), "%s takes piece %d of strings.Split(entry, \"=\") as (part of) a value on the way into a command's environment: a value that contains '=' — an argument after `--`, a stored output, an inherited variable — is cut at its first '='", an.Short(f), k)
+				}
+			}
+		})
+	}
+	if !bad {
+		c.OK(rule, "environment path:whole values", roots[0].Pos(), "no NAME=value entry is split at every '=' on the way into a command's environment (%d functions, %d splits at '=')", len(reach), n)
+	}
 }
